@@ -33,6 +33,29 @@ type Config struct {
 	Workers    int
 	KeepGoing  bool
 	NoValidate bool
+	HarnessDir string // snapshot of <verif>/harness used by this run
+}
+
+func snapshotHarness(src string) (string, error) {
+	dst, err := os.MkdirTemp("", "vcheck-harness-")
+	if err != nil {
+		return "", err
+	}
+	err = filepath.Walk(src, func(p string, info os.FileInfo, err error) error {
+		if err != nil {
+			return err
+		}
+		rel, _ := filepath.Rel(src, p)
+		if info.IsDir() {
+			return os.MkdirAll(filepath.Join(dst, rel), 0o755)
+		}
+		b, err := os.ReadFile(p)
+		if err != nil {
+			return err
+		}
+		return os.WriteFile(filepath.Join(dst, rel), b, 0o644)
+	})
+	return dst, err
 }
 
 // Finding is one line of known_findings.jsonl.
@@ -159,6 +182,20 @@ func bareName(k string) string {
 	return k
 }
 
+// matchesList: "" matches everything; otherwise a comma-separated list of names, a trailing * is a prefix wildcard.
+func matchesList(list, name string) bool {
+	if strings.TrimSpace(list) == "" {
+		return true
+	}
+	for _, it := range strings.Split(list, ",") {
+		it = strings.TrimSpace(it)
+		if it == name || (strings.HasSuffix(it, "*") && strings.HasPrefix(name, strings.TrimSuffix(it, "*"))) {
+			return true
+		}
+	}
+	return false
+}
+
 func sortFromName(s string) smt.Sort {
 	switch s {
 	case "bool":
@@ -224,7 +261,16 @@ func loadFindings(verif string) ([]Finding, error) {
 // Run executes the check and returns the process exit code.
 func Run(cfg Config) int {
 	start := time.Now()
-	harnessDir := filepath.Join(cfg.Verif, "harness")
+	// work on a private snapshot of the harness sources so that concurrent edits cannot change what
+	// this run analyses and replays
+	snap, err := snapshotHarness(filepath.Join(cfg.Verif, "harness"))
+	if err != nil {
+		fmt.Fprintln(os.Stderr, "harness snapshot:", err)
+		return 2
+	}
+	defer os.RemoveAll(snap)
+	cfg.HarnessDir = snap
+	harnessDir := snap
 	all, err := discoverEntries(harnessDir)
 	if err != nil {
 		fmt.Fprintln(os.Stderr, "discover:", err)
@@ -475,9 +521,11 @@ func runEntry(cfg Config, prog *symex.Program, e entryInfo, findings []Finding) 
 		budget = 40 * time.Minute
 	}
 	router := smt.NewRouter(timeout)
+	router.Scope = e.Name + "!"
 	defer router.Close()
 	m := symex.NewMachine(prog, router)
 	m.Verbose = cfg.Verbose
+	m.Thorough = cfg.Tier == "thorough"
 	m.Prefix = e.Name + "!"
 	prefix := m.Prefix
 	paths, complete := m.Explore(fn, maxPaths, budget)
@@ -493,8 +541,10 @@ func runEntry(cfg Config, prog *symex.Program, e entryInfo, findings []Finding) 
 	}
 	myFindings := map[string][]Finding{}
 	for _, f := range findings {
-		if f.Status == "finding" && f.Property == cfg.Property && (f.Entry == "" || f.Entry == e.Name) {
-			myFindings[f.Label] = append(myFindings[f.Label], f)
+		if f.Status == "finding" && f.Property == cfg.Property && matchesList(f.Entry, e.Name) {
+			for _, l := range strings.Split(f.Label, ",") {
+				myFindings[strings.TrimSpace(l)] = append(myFindings[strings.TrimSpace(l)], f)
+			}
 		}
 	}
 	seenUnsupp := map[string]bool{}
@@ -584,6 +634,11 @@ func runEntry(cfg Config, prog *symex.Program, e entryInfo, findings []Finding) 
 		}
 		if p.Outcome == "return" && len(res.valCases) < 8 {
 			clean := true
+			for _, ef := range p.Effects {
+				if ef.Name == "select" {
+					clean = false // scheduler choices cannot be scripted natively
+				}
+			}
 			for _, ob := range res.Obligations {
 				if ob.PathID == p.ID && ob.Verdict != "unsat" {
 					clean = false
